@@ -450,6 +450,16 @@ class Interp(object):
         recv = None
         is_np = isinstance(f, ast.Attribute) and isinstance(
             f.value, ast.Name) and f.value.id in ('np', 'numpy', 'torch')
+        # np.linalg.norm(x, axis=k): a reduction along k like np.sum
+        is_linalg = isinstance(f, ast.Attribute) and isinstance(
+            f.value, ast.Attribute) and f.value.attr == 'linalg' \
+            and isinstance(f.value.value, ast.Name) \
+            and f.value.value.id in ('np', 'numpy', 'torch')
+        if is_linalg and nm == 'norm' and c.args:
+            a = self.ev(c.args[0])
+            if isinstance(a, Arr):
+                return self.reduce(c, a, self.axis_arg(c, 1), 'sum', False)
+            return Scalar()
         if isinstance(f, ast.Attribute) and not is_np:
             recv = self.ev(f.value)
         args = c.args
